@@ -3,6 +3,7 @@
 // decoded bytes); the result text must be accepted by the independent recogniser and parse (refjson) to the model.
 #include <algorithm>
 #include <cstring>
+#include <thread>
 #include <functional>
 
 #include "common/genjson.hpp"
@@ -129,6 +130,26 @@ static void property(Src& s, Case& c) {
   c.nt(common || esc);
   if (c.counting) c.desc("target=" + printable(ttext, 90) + " source=" + printable(stext, 90));
   std::string m = judge(ttext, stext, c);
+  if (m.empty() && s.coin(1, 120)) {
+    // four threads merge pairs of their own at the same time: the result of a merge must not depend on the other threads
+    c.cls("four-threads");
+    std::string tt[4] = {ttext, stext, "{\"a\":{\"b\":[1,2,3]},\"t\":\"" + std::string(300, 'x') + "\"}", ttext};
+    std::string ss[4] = {stext, ttext, "{\"a\":{\"c\":null},\"u\":" + ttext + "}", "{\"only\":1}"};
+    std::string want[4], bad[4];
+    for (int t = 0; t < 4; t++) want[t] = UpdateLazy(tt[t], ss[t]);
+    std::vector<std::thread> th;
+    for (int t = 0; t < 4; t++)
+      th.emplace_back([&, t] {
+        for (int rep = 0; rep < 300 && bad[t].empty(); rep++) {
+          std::string got = UpdateLazy(tt[t], ss[t]);
+          if (got != want[t]) bad[t] = got;
+        }
+      });
+    for (auto& x : th) x.join();
+    c.subevals += 1200;
+    for (int t = 0; t < 4 && m.empty(); t++)
+      if (!bad[t].empty()) m = "with four threads merging their own pairs, thread " + std::to_string(t) + " got " + printable(bad[t], 120) + " instead of " + printable(want[t], 120);
+  }
   if (!m.empty()) c.fail(m + " | target=" + printable(ttext, 300) + " source=" + printable(stext, 300));
 }
 
